@@ -101,6 +101,9 @@ type EvRec struct {
 }
 
 type runner struct {
+	away bool // the target directory is renamed away (tmpdir fault)
+	// the remote source values handed to the builder (by Add calls and by dependency finders), as they were made
+	given    []sourceaddrs.RemoteSource
 	w        *World
 	mu       sync.Mutex
 	calls    []CallRec
@@ -160,6 +163,35 @@ func (r *runner) atBoundary(where string) {
 	if r.yield {
 		time.Sleep(time.Duration(len(where)%3) * 50 * time.Microsecond)
 	}
+}
+
+// rawRemoteParts splits one of the pool's canonical remote addresses ("[type::]scheme://host/path[//sub][?query]")
+// without the library's parser.
+func rawRemoteParts(addr string) (typ string, u *url.URL, sub string, ok bool) {
+	rest := addr
+	if i := strings.Index(rest, "::"); i >= 0 {
+		typ, rest = rest[:i], rest[i+2:]
+	}
+	q := ""
+	if i := strings.Index(rest, "?"); i >= 0 {
+		rest, q = rest[:i], rest[i:]
+	}
+	i := strings.Index(rest, "://")
+	if i < 0 {
+		return "", nil, "", false
+	}
+	if j := strings.Index(rest[i+3:], "//"); j >= 0 {
+		sub = rest[i+3+j+2:]
+		rest = rest[:i+3+j]
+	}
+	u, err := url.Parse(rest + q)
+	if err != nil {
+		return "", nil, "", false
+	}
+	if typ == "" {
+		typ = u.Scheme
+	}
+	return typ, u, sub, true
 }
 
 func (r *runner) pkgByAddr(sourceType string, u *url.URL) *PkgSpec {
@@ -352,6 +384,15 @@ func (f *scriptedFinder) FindDependencies(fsys fs.FS, subPath string, deps *sour
 			if err != nil {
 				panic("harness: bad remote dep " + d.Addr)
 			}
+			if len(d.Addr)%2 == 0 {
+				// the other way to make the same address: from its parts, taken from the text by hand
+				if typ, u, sub, ok := rawRemoteParts(d.Addr); ok {
+					if s2, err := sourceaddrs.MakeRemoteSource(typ, u, sub); err == nil {
+						s = s2
+					}
+				}
+			}
+			r.given = append(r.given, s)
 			deps.AddRemoteSource(s, r.finders[d.Finder])
 		case "registry":
 			s, err := sourceaddrs.ParseRegistrySource(d.Addr)
@@ -411,11 +452,21 @@ func (r *runner) tracer() *sourcebundle.BuildTracer {
 		},
 		RemotePackageDownloadStart: func(ctx context.Context, p sourceaddrs.RemotePackage) context.Context {
 			ev("download-start", p.String(), "", 0)
+			if r.shouldFail("tmpdir") {
+				// the target directory is out of reach for a moment: the temporary directory cannot be made
+				if os.Rename(r.target, r.target+".away") == nil {
+					r.away = true
+				}
+			}
 			return ctx
 		},
 		RemotePackageDownloadSuccess: func(ctx context.Context, p sourceaddrs.RemotePackage) { ev("download-success", p.String(), "", 0) },
 		RemotePackageDownloadFailure: func(ctx context.Context, p sourceaddrs.RemotePackage, err error) {
 			ev("download-failure", p.String(), "", 0)
+			if r.away {
+				os.Rename(r.target+".away", r.target)
+				r.away = false
+			}
 		},
 		RemotePackageDownloadAlready: func(ctx context.Context, p sourceaddrs.RemotePackage) { ev("download-already", p.String(), "", 0) },
 		Diagnostics: func(ctx context.Context, diags sourcebundle.Diagnostics) {
@@ -574,6 +625,10 @@ func runBuild(w *World, ops []OpSpec, target string, faults []Fault, boundary fu
 		res.obs.Timeout = true
 		res.obs.Outcomes = append(res.obs.Outcomes, OpOutcome{Kind: "timeout"})
 	}
+	if r.away {
+		os.Rename(r.target+".away", r.target)
+		r.away = false
+	}
 	res.obs.Calls = append([]CallRec{}, r.calls...)
 	res.obs.Events = append([]EvRec{}, r.events...)
 	res.obs.FaultHit = r.faultHit
@@ -597,6 +652,7 @@ func runOp(r *runner, b *sourcebundle.Builder, ctx context.Context, op OpSpec, r
 		if err != nil {
 			panic("harness: bad op addr " + op.Addr)
 		}
+		r.given = append(r.given, s)
 		diags = b.AddRemoteSource(ctx, s, r.finders[op.Finder])
 	case "registry":
 		s, err := sourceaddrs.ParseRegistrySource(op.Addr)
@@ -634,22 +690,34 @@ type refItem struct {
 }
 
 type refResult struct {
-	Items    map[refItem]bool
-	Pkgs     map[string]bool
-	RegSel   map[string]string // "rpkg|set" -> selected version ("" = none)
-	Resolved map[string]string // "rpkg@ver" -> remote source string
-	Failed   bool              // some step of the reference build fails (missing package, no version, escape)
-	ZeroSel  bool              // some request's newest allowed version is 0.0.0 or a 0.0.0 pre-release
+	Items       map[refItem]bool
+	Pkgs        map[string]bool
+	RegSel      map[string]string // "rpkg|set" -> selected version ("" = none)
+	Resolved    map[string]string // "rpkg@ver" -> remote source string
+	Failed      bool              // some step of the reference build fails (missing package, no version, escape)
+	ZeroSel     bool              // some request's newest allowed version is 0.0.0 or a 0.0.0 pre-release
+	NoneAllowed bool              // some request has no offered version inside its allowed set
 }
 
 func cmpV(s string) string { return versions.MustParseVersion(s).Comparable().String() }
 
+// splitRemote: package and sub-path of one of the worlds' canonical remote addresses, cut out of the text by hand
+// (the reference must not depend on the parser under test)
 func splitRemote(addr string) (string, string) {
-	s, err := sourceaddrs.ParseRemoteSource(addr)
-	if err != nil {
+	rest, q := addr, ""
+	if i := strings.Index(rest, "?"); i >= 0 {
+		rest, q = rest[:i], rest[i:]
+	}
+	i := strings.Index(rest, "://")
+	if i < 0 {
 		panic("harness: bad remote addr " + addr)
 	}
-	return s.Package().String(), s.SubPath()
+	sub := ""
+	if j := strings.Index(rest[i+3:], "//"); j >= 0 {
+		sub = rest[i+3+j+2:]
+		rest = rest[:i+3+j]
+	}
+	return rest + q, sub
 }
 
 // bruteNewest: maximum of offered ∩ allowed by a simple precedence comparison
@@ -706,6 +774,7 @@ func (w *World) reference(ops []OpSpec) *refResult {
 		if !ok {
 			res.RegSel[s.Package().String()+"|"+setKey] = ""
 			res.Failed = true
+			res.NoneAllowed = true
 			return
 		}
 		res.RegSel[s.Package().String()+"|"+setKey] = cmpV(best)
